@@ -631,3 +631,66 @@ Proof.
     + intros l1 d l2 Hs. destruct l1; discriminate.
     + apply edges_cover_ru; [exact HR|exact HB0|apply edges_cover_init].
 Qed.
+
+(* ---------- a cycle without type declarations never sorts ---------- *)
+Definition dep_on (D : list decl) (a b : str) : Prop := exists d, In d D /\ dname d = a /\ In b (ddeps d).
+(* every member depends on a member: holds for the set of names of any dependency cycle *)
+Definition closed_cycle (D : list decl) (S : list str) : Prop :=
+  S <> [] /\ forall a, In a S -> exists b, In b S /\ dep_on D a b.
+Definition no_type_named (D : list decl) (S : list str) : Prop :=
+  forall t, In t D -> In (dname t) S -> is_type t = false.
+Definition is_cycle (D : list decl) (c : list str) : Prop :=
+  c <> [] /\ forall i, i < length c -> dep_on D (nth i c []) (nth (S i mod length c) c []).
+
+Lemma cycle_closed D c : is_cycle D c -> closed_cycle D c.
+Proof.
+  intros [H1 H2]. assert (Hl : length c <> 0) by (destruct c; [congruence|discriminate]).
+  split; [exact H1|]. intros a Ha. apply (In_nth _ _ []) in Ha as [i [Hi <-]].
+  exists (nth (S i mod length c) c []). split; [|apply H2; exact Hi].
+  apply nth_In. apply Nat.mod_upper_bound. exact Hl.
+Qed.
+
+Definition I_cyc (S : list str) (g : graph) (acc : list decl) : Prop :=
+  forall a, In a S -> exists nd, In nd g /\ gname nd = a /\ exists b, In b S /\ In b (gedges nd).
+
+Lemma I_cyc_ru S g acc acc' : I_cyc S g acc -> I_cyc S (remove_unresolvable g) acc'.
+Proof.
+  intros H a Ha. destruct (H a Ha) as [nd [H1 [H2 [b [H3 H4]]]]].
+  exists (mkNode (gname nd) (gdecls nd) (filter (has_node g) (gedges nd))). split; [|split; [exact H2|]].
+  - unfold remove_unresolvable. apply in_map_iff. exists nd. auto.
+  - exists b. split; [exact H3|]. simpl. apply filter_In. split; [exact H4|].
+    destruct (H b H3) as [nb [B1 [B2 _]]]. apply has_node_In. rewrite <- B2. apply in_map. exact B1.
+Qed.
+
+Lemma node_unique g x y : NoDup (gnames g) -> In x g -> In y g -> gname x = gname y -> x = y.
+Proof.
+  induction g as [|z g IH]; intros Hnd Hx Hy E; [destruct Hx|].
+  simpl in Hnd. inversion Hnd; subst.
+  destruct Hx as [<-|Hx], Hy as [<-|Hy]; auto.
+  - exfalso. apply H1. rewrite E. apply in_map. exact Hy.
+  - exfalso. apply H1. rewrite <- E. apply in_map. exact Hx.
+Qed.
+
+Lemma no_cycle_sorts ds S out : Forall (fun d => dkind d <> KTypeFwd) ds ->
+  closed_cycle (resolve ds) S -> no_type_named (resolve ds) S -> sort ds <> Ok out.
+Proof.
+  intros Hk [Hne HS] HNT H. unfold sort, sort_graph in H.
+  apply (sort_loop_inv (resolve ds) (I_cyc S)) in H.
+  - destruct H as [_ H]. destruct S as [|a S]; [congruence|]. destruct (H a (or_introl eq_refl)) as [nd [[] _]].
+  - intros g acc nd HB HI Hin He _ _. apply I_cyc_ru with (acc := acc).
+    intros a Ha. destruct (HI a Ha) as [x [X1 [X2 [b [X3 X4]]]]]. exists x. split; [|split; [exact X2|exists b; auto]].
+    apply del_node_In. split; [exact X1|]. intros E.
+    destruct HB as [[Hnd _] _]. rewrite (node_unique g x nd Hnd X1 Hin E) in X4. rewrite He in X4. destruct X4.
+  - intros g acc buf HB HI _ _ _. apply I_cyc_ru with (acc := acc).
+    intros a Ha. destruct (HI a Ha) as [x [X1 [X2 [b [X3 X4]]]]]. exists x. split; [|split; [exact X2|exists b; auto]].
+    apply in_map_iff. exists x. split; [|exact X1]. unfold tf_map. destruct (has_type x) eqn:Et; [|reflexivity].
+    exfalso. unfold has_type in Et. apply existsb_exists in Et as [t [T1 T2]].
+    assert (HtD : In t (resolve ds)) by (eapply Base_in_D; [exact HB|apply all_decls_In; eauto]).
+    destruct HB as [[_ Hn] _]. rewrite (HNT t HtD) in T2; [discriminate|]. rewrite (Hn x t X1 T1), X2. exact Ha.
+  - apply Base_init. exact Hk.
+  - apply I_cyc_ru with (acc := []). intros a Ha. destruct (HS a Ha) as [b [Hb [d [D1 [D2 D3]]]]].
+    apply (Permutation_in _ (Permutation_sym (build_perm ds))) in D1. apply all_decls_In in D1 as [nd [N1 N2]].
+    exists nd. split; [exact N1|]. split.
+    + destruct (build_gwf ds) as [_ Hn]. rewrite <- (Hn nd d N1 N2). exact D2.
+    + exists b. split; [exact Hb|]. rewrite (build_edges ds nd N1). apply sort_unique_In. apply in_flat_map. exists d. auto.
+Qed.
